@@ -845,4 +845,11 @@ def rules(repo: Repo, tier: str) -> List[RuleResult]:
     from . import c08
     return [rule_global(repo), rule_fields(repo), rule_dedup(repo), rule_dummy(repo),
             # "exporting the combination and parsing it back succeeds": the writer keeps every constant of the union
-            c08.rule_allconstants(repo, "C17.export.constants")]
+            c08.rule_allconstants(repo, "C17.export.constants"),
+            # ... and the problem writer prints every object / fact / fluent of the combination with all the parts the reader needs
+            _c09().rule_elements(repo, "C17.export.elements")]
+
+
+def _c09():
+    from . import c09
+    return c09
